@@ -1,4 +1,5 @@
 """C01 - EQL answers are exactly the satisfying assignments (EQLCore.tla)."""
+import json
 from harness.core import Ctx, replay, MachineryError
 
 
@@ -126,7 +127,7 @@ def main():
                 "and on y, attribute vs attribute across variables, membership of x in y.items) and seeded random subsets of the "
                 "6-atom 'logic6' and the 'access' vocabulary (attribute chains x.ref.a, object-valued comparisons, x != y), each "
                 "with the reference Answers for every assignment of {empty, singleton, complete} domains to x and y and every "
-                "selection (x | y | x,y) that the statement settles; EQLFlat.tla adds 184 conditions over f = flatten(y.items), EQLTerms.tla 608 over indexing, method calls, a nested query used as a variable and bare truth-valued attributes; every case is built with the public API (entity / set_of, "
+                "selection (x | y | x,y) that the statement settles; EQLFlat.tla adds 184 conditions over f = flatten(y.items), EQLTerms.tla 1024 over indexing, method calls, a nested query used as a variable and bare truth-valued attributes; every case is built with the public API (entity / set_of, "
                 "in_ / contains alternating) and evaluated (every fifth condition on a world whose objects are falsy Python objects); result rows are compared as sets. Non-trivial = a condition with at "
                 "least one connective and a case with a non-empty expected set; distinct by (condition, domains, selection).")
     # layer I => R on the model (the pipeline returns exactly the satisfying rows), reference sanity, non-vacuity
@@ -167,8 +168,8 @@ def main():
         cases.append({"cond": j["cond"], "cases": cs, "variant": i % 6, "family": "flat", "reeval": False, "falsy": i % 5 == 4})
     # derived terms (EQLTerms.tla): indexing, method calls with and without arguments, a nested query used as a variable
     terms = [j for j in ctx.run_tlc("EQLTerms", "EQLTerms_gen.cfg", expect="ok").json_lines() if isinstance(j, dict) and "cond" in j]
-    if len(terms) != 608:
-        raise MachineryError(f"EQLTerms_gen: expected 608 conditions, got {len(terms)}")
+    if len(terms) != 1024:
+        raise MachineryError(f"EQLTerms_gen: expected 1024 conditions, got {len(terms)}")
     for i, j in enumerate(terms):
         cs = [{"dom": {"x": c["dx"], "y": c["dy"], "__terms__": True}, "sel": c["sel"], "exp": c["exp"]} for c in j["cases"]]
         if not thorough:
@@ -204,6 +205,10 @@ def main():
                              "observed": sorted(got)})
             if not err and f02 and exp < got:
                 ctx.known_finding("C01-F02", {"cond": c["cond"], "dom": cs["dom"], "sel": cs["sel"], "extra": sorted(got - exp)})
+                continue
+            if not err and exp != got and c["family"] == "terms" and '"pair"], ["tlit"' in json.dumps(c["cond"]) + json.dumps(c["cond"]).replace('"pair"], ["attr", "y", "pair"]', '"pair"], ["tlit"'):
+                # signature (finding F37): == / != between two collection values compares them as SETS
+                ctx.known_finding("C01-F37", {"cond": c["cond"], "dom": cs["dom"], "sel": cs["sel"], "missing": sorted(exp - got), "extra": sorted(got - exp)})
                 continue
             missing_only = not err and exp != got and not (got - exp) and c["family"] == "quant"
             if missing_only and f04_signature(c["cond"], cs["sel"]):
